@@ -47,29 +47,96 @@ def vsig(prog, fn, v, depth=0, _visiting=None):
 
 # Shape-invariant exception table (frozen after reading each site; one entry covers the three
 # copies map/set/key).  key: (function name, signature of the index) -> reason.
-R_ROT = ('a rotation is only requested around a node whose inner child exists (insert repair cases 4/5: the red parent and the new node; '
+R_ROT = ('inner child of a rotated node: the function re-parents its parameter node and moves one of its child links (a rotation); '
+         'a rotation is only requested around a node whose inner child exists (insert repair cases 4/5: the red parent and the new node; '
          'delete repair cases 2/5/6: the sibling or its red child); the rotated node itself is checked at every call site by the parameter meet')
-R_UNCLE = 'the only caller returns before the call when the grandparent link is EMPTY_REF (the test dominates the call, no write in between)'
-R_PARENT = ('the examined node is not the root (fix_red_black_properties_after_delete returns on n_index == root before any of this runs) '
-            'and only the root has an empty parent link')
-R_SIBLING = 'a double-black node always has a sibling: black heights of the two subtrees were equal before the removal (C02)'
+R_SIBLING = ('sibling of the examined node in the delete repair: the examined node is known not to be the root (tested against self.root), so it has a parent, '
+             'and a double-black node always has a sibling because black heights of the two subtrees were equal before the removal (C02); '
+             'accepted only in functions reachable from the removal transaction alone')
 R_NIL = ('the sentinel was linked under a NonEmpty parent by create_nil_node/set_nil_parents_child in the same removal (NILSTATE) '
          'and rotations re-parent it only under existing nodes')
 R_CLEAR = 'only NonEmpty indices are ever released to the free list (POOL checks every put_back argument)'
-EXCEPTIONS = {
-    ('rotate_right', 'node(index).left'): R_ROT,
-    ('rotate_left', 'node(index).right'): R_ROT,
-    ('get_uncle', 'node(p_index).parent'): R_UNCLE,
-    ('get_sibling', 'node(n_index).parent'): R_PARENT,
-    ('handle_red_sibling', 'node(n_index).parent'): R_PARENT,
-    ('handle_black_sibling_with_at_least_one_red_child', 'node(n_index).parent'): R_PARENT,
-    ('fix_red_black_properties_after_delete', 'node(n_index).parent'): R_PARENT,
-    ('fix_red_black_properties_after_delete', 'node(node(n_index).parent).left|node(node(n_index).parent).right'): R_SIBLING,
-    ('handle_black_sibling_with_at_least_one_red_child', 'node(node(n_index).parent).right'): R_SIBLING,
-    ('handle_black_sibling_with_at_least_one_red_child', 'node(node(n_index).parent).left'): R_SIBLING,
-    ('fix_parents_nil_child', 'node(const:NIL_INDEX).parent'): R_NIL,
-    ('clear', 'elem:store.unused'): R_CLEAR,
-}
+
+
+def removal_only(prog):
+    """functions reachable from a removal transaction but from no public entry point other than through it"""
+    key = ('removalonly',)
+    if key in prog._summ_cache:
+        return prog._summ_cache[key]
+    from rules.stale import removal_fns
+    rem = removal_fns(prog)
+    R = set()
+    for f in rem.values():
+        R |= {g.path for g in prog.closure(f)}
+    I = set()
+    stack = [f for f in prog.fns.values() if (f.trait_item or f.vis == 'Public') and not f.is_closure]
+    while stack:
+        f = stack.pop()
+        if f.path in I or f.path in rem:
+            continue
+        I.add(f.path)
+        for _, t in prog.callees(f):
+            stack.append(t)
+    out = R - I - set(rem)
+    prog._summ_cache[key] = out
+    return out
+
+
+def structural_exception(prog, fn, call, idx, na):
+    """reason string if the possibly-empty index is covered by a reasoned shape invariant, recognised structurally
+    (no function names): returns None otherwise"""
+    from rules.pool import pool_roles
+    from summaries import node_writes
+    atoms = origins(prog, fn, idx)
+    if not atoms:
+        return None
+    free_fields = {r['free'][-1] for r in pool_roles(prog).values() if r.get('free')}
+    if all(a[0] == 'elem' and a[1] and a[1][-1] in free_fields for a in atoms):
+        return R_CLEAR
+    if all(a[0] == 'link' and a[2] == 'parent' and hasattr(a[1], 'kind') and prog.is_nil_index(a[1]) for a in atoms):
+        return R_NIL
+    # rotation
+    ks = set()
+    ok = True
+    for a in atoms:
+        if a[0] == 'link' and a[2] in ('left', 'right') and hasattr(a[1], 'kind') and strip(a[1]).kind == 'param':
+            ks.add(strip(a[1]).args[0])
+        else:
+            ok = False
+    if ok and len(ks) == 1:
+        k = next(iter(ks))
+        wr = node_writes(prog, fn)
+        reparents = any(t == ('param', k) and flds == ('parent',) for (t, flds, vd, site, vv) in wr)
+        moves_child = any(t == ('param', k) and flds in (('left',), ('right',)) for (t, flds, vd, site, vv) in wr)
+        if reparents and moves_child:
+            return R_ROT
+    # sibling of a non-root examined node, in the delete repair only
+    if fn.path in removal_only(prog):
+        st = na.results[fn.path].site_state.get(call.id)
+        vals = st[0] if st else frozenset()
+
+        def nonroot_parent_of(base):
+            """is `base` the parent link of a node known not to be the root?"""
+            if hasattr(base, 'kind'):
+                for a2 in origins(prog, fn, base):
+                    if not (a2[0] == 'link' and a2[2] == 'parent'):
+                        return False
+                    x = a2[1]
+                    if not hasattr(x, 'kind') or not (('nr', strip(x).id) in vals or na_nonroot_param(na, fn, x)):
+                        return False
+                return True
+            if isinstance(base, tuple) and base[0] == 'link' and base[2] == 'parent':
+                x = base[1]
+                return hasattr(x, 'kind') and (('nr', strip(x).id) in vals or na_nonroot_param(na, fn, x))
+            return False
+        if all(a[0] == 'link' and a[2] in ('left', 'right') and nonroot_parent_of(a[1]) for a in atoms):
+            return R_SIBLING
+    return None
+
+
+def na_nonroot_param(na, fn, x):
+    x = strip(x)
+    return x.kind == 'param' and na.param_nr.get((fn.path, x.args[0]), False)
 
 
 def props_for(prog, fn):
@@ -89,6 +156,7 @@ def run(ctx):
     prog = ctx.prog
     tree_acc = {p: a for p, a in prog.accessors.items() if a['fn'].body.locals[2]['ty'] == 'u32'}
     assumed = set()
+    reasons = {}
     na = None
     for _ in range(6):
         na = NullAnalysis(prog, assumed).solve()
@@ -102,9 +170,24 @@ def run(ctx):
                 flags = r.arg_nonempty.get(call.id)
                 if flags is None or flags[1]:
                     continue
-                key = (fn.name, vsig(prog, fn, call.args[1]))
-                if key in EXCEPTIONS:
+                why = structural_exception(prog, fn, call, strip(call.args[1]), na)
+                if why:
                     new.add((fn.path, strip(call.args[1]).id))
+                    reasons[(fn.path, strip(call.args[1]).id)] = why
+            # the same shape invariants cover index arguments handed to crate functions (e.g. a merged helper)
+            for call in fn.body.calls:
+                tgt = prog.resolve(call)
+                if tgt is None or tgt.path in tree_acc or tgt.self_adt not in prog.tree_adts:
+                    continue
+                flags = r.arg_nonempty.get(call.id)
+                if flags is None:
+                    continue
+                for k in na.u32_params(tgt):
+                    if k - 1 < len(flags) and not flags[k - 1] and not prog.is_empty_ref(call.args[k - 1]):
+                        why = structural_exception(prog, fn, call, strip(call.args[k - 1]), na)
+                        if why:
+                            new.add((fn.path, strip(call.args[k - 1]).id))
+                            reasons[(fn.path, strip(call.args[k - 1]).id)] = why
         if new <= assumed:
             break
         assumed |= new
@@ -131,7 +214,7 @@ def run(ctx):
             line = span_line(call, fn.line)
             trivial = idx.kind == 'const'
             if (fn.path, idx.id) in assumed:
-                ctx.add(RULE, fn, sig, 'exception', 'index may be EMPTY_REF by dataflow; accepted: ' + EXCEPTIONS[(fn.name, sg)], props, line,
+                ctx.add(RULE, fn, sig, 'exception', 'index may be EMPTY_REF by dataflow; accepted: ' + reasons.get((fn.path, idx.id), ''), props, line,
                         {'index': show(idx, 4)})
             elif flags[1]:
                 ctx.add(RULE, fn, sig, 'ok', 'index proven != EMPTY_REF at the dereference', props, line, {'index': show(idx, 4)}, nontrivial=not trivial)
